@@ -514,6 +514,8 @@ func (e *Engine) Prelude(sp *spec.File) (decls []string, quants []smt.Quant) {
 					has := sx.Not(sx.App("(_ is None)", sx.App("select", store, wit)))
 					return sx.Ite(sx.And(has, env.Tr(fd.Where).T), env.Tr(fd.Summand).T, sx.Int(0))
 				}
+				// the sum over the empty store is 0 (part of L-FOLD, A11): base of invariants established by a first deployment
+				decls = append(decls, fmt.Sprintf("(assert (= (fold_%s ((as const Store) None)) 0))", n))
 				quants = append(quants, smt.Quant{Name: "fold-ext-" + n, Vars: []smt.Var{{Name: "s?fx", Sort: "Store"}, {Name: "t?fx", Sort: "Store"}},
 					Body: sx.Or(sx.App("=", sx.App("fold_"+n, sv), sx.App("fold_"+n, tv)), sx.Not(sx.App("=", contrib(sv), contrib(tv)))),
 					Pats: [][]*sx.T{{sx.App("fold_"+n, sv), sx.App("fold_"+n, tv)}}})
